@@ -58,10 +58,22 @@ func NewExchangeJSightSchema[T bytes.ByteKeeper](
 		}
 	}
 
+	// Only the JSight types which the schema reaches are given to it: a project
+	// with n types and m schemas would pay n*m otherwise (2000 types and 2000
+	// bodies, 100 KB: 12 seconds). Regex types are always added, every addition
+	// takes an example from the generator of the type and the examples which
+	// get into the catalog depend on that.
+	reached := reachedUserTypes(es.JSchema, coreUserTypes)
+
 	err := coreUserTypes.Each(func(k string, v schema.Schema) error {
 		if k == "" {
 			// A TYPE directive without a name: the error is reported for that directive.
 			return nil
+		}
+		if _, isJSight := v.(*jschema.JSchema); isJSight && reached != nil {
+			if _, ok := reached[k]; !ok {
+				return nil
+			}
 		}
 		return AddUserType(es.JSchema, k, v)
 	})
@@ -95,6 +107,36 @@ func NewExchangeJSightSchema[T bytes.ByteKeeper](
 	}
 
 	return es, nil
+}
+
+// reachedUserTypes returns the names of the user types which the schema names,
+// directly or through other JSight types; nil when that cannot be told (the
+// schema or one of the types cannot be read).
+func reachedUserTypes(s *jschema.JSchema, userTypes *UserSchemas) map[string]struct{} {
+	reached := map[string]struct{}{}
+	var walk func(sc schema.Schema) bool
+	walk = func(sc schema.Schema) bool {
+		names, err := sc.UsedUserTypes()
+		if err != nil {
+			return false
+		}
+		for _, n := range names {
+			if _, ok := reached[n]; ok {
+				continue
+			}
+			reached[n] = struct{}{}
+			if t, ok := userTypes.GetValue(n).(*jschema.JSchema); ok && t != nil {
+				if !walk(t) {
+					return false
+				}
+			}
+		}
+		return true
+	}
+	if !walk(s) {
+		return nil
+	}
+	return reached
 }
 
 // maxSchemaDepth limits the nesting of arrays and objects in a schema. Every
